@@ -146,8 +146,13 @@ def run_text(ctx, sh):
 
 
 def fresh_path():
+    """a path that does not exist.  Every other call hands out the SAME name again (the previous file was deleted
+    by the caller): a fresh file need not have a fresh name."""
     _lib['counter'] += 1
-    p = os.path.join(_lib['tmp'], 'f%d_%d.txt' % (os.getpid(), _lib['counter']))
+    if _lib['counter'] % 2 == 0:
+        p = os.path.join(_lib['tmp'], 'f%d_again.txt' % os.getpid())
+    else:
+        p = os.path.join(_lib['tmp'], 'f%d_%d.txt' % (os.getpid(), _lib['counter']))
     if os.path.exists(p):
         os.unlink(p)
     return p
